@@ -156,3 +156,357 @@ Proof.
 Qed.
 
 End WithSenv.
+
+(** * The invariant *)
+Section Inv.
+Variable v : senv.
+
+Definition names (sg : list (Z * Z * ccfg)) := map (fun x => fst (fst x)) sg.
+Definition ids (sg : list (Z * Z * ccfg)) := map (fun x => snd (fst x)) sg.
+Definition is_xy (x : Z * Z * ccfg) : Prop := c_basis (snd x) = 2.
+
+Definition minv (m : list (Z * Z * ccfg) * bool * bool) : Prop :=
+  let '(sg, xy, ising) := m in
+  NoDup (names sg) /\
+  (d_reusable (v_dev v) = false -> NoDup (ids sg)) /\
+  (xy = true -> Forall is_xy sg) /\
+  (xy = false -> Forall (fun x => ~ is_xy x) sg) /\
+  (xy = false -> ising = false -> sg = []).
+
+(** DMM channels are not Microwave channels *)
+Definition dev_ok : Prop :=
+  Forall (fun x => c_basis (snd x) <> 2) (d_dmms (v_dev v)) /\
+  Forall (fun x => c_dmm (snd x) = false) (d_chans (v_dev v)).
+
+Lemma find_chan_none_names n s : find_chan n s = None -> ~ In n (names (sigs s)).
+Proof.
+  induction s as [|a s IH]; cbn; [tauto|].
+  destruct (ch_name a =? n) eqn:E; [discriminate|].
+  intros H [Hn|Hn]; [apply Z.eqb_neq in E; auto|apply IH; auto].
+Qed.
+
+Lemma occupied_false_ids s id : occupied s id = false -> ~ In id (ids (sigs (q_sched s))).
+Proof.
+  unfold occupied. generalize (q_sched s). intros l.
+  induction l as [|a l IH]; cbn; [tauto|].
+  destruct (ch_id a =? id) eqn:E; cbn; [discriminate|].
+  intros H [Hn|Hn]; [apply Z.eqb_neq in E; auto|apply IH; auto].
+Qed.
+
+Lemma NoDup_snoc {A} (l : list A) x : NoDup l -> ~ In x l -> NoDup (l ++ [x]).
+Proof.
+  induction l as [|a l IH]; cbn; intros Hn Hx; [constructor; [tauto|constructor]|].
+  inv Hn. constructor.
+  - rewrite in_app_iff. cbn. intros [H|[H|[]]]; [tauto|subst; tauto].
+  - apply IH; auto.
+Qed.
+
+(** what a declaration can do to the mode *)
+Definition appended (s s' : seq) (name id : Z) (cfg : ccfg) : Prop :=
+  sigs (q_sched s') = sigs (q_sched s) ++ [(name, id, cfg)] /\
+  find_chan name (q_sched s) = None /\ available v s id cfg = true /\
+  (if c_basis cfg =? 2
+   then q_inxy s' = true /\ q_inising s' = q_inising s /\ (q_inxy s = true \/ q_sched s = [])
+   else q_inxy s' = q_inxy s /\ q_inising s' = true).
+
+Lemma mode_eq_fields s s' :
+  mode s' = mode s -> sigs (q_sched s') = sigs (q_sched s) /\ q_inxy s' = q_inxy s /\ q_inising s' = q_inising s.
+Proof. unfold mode. intros H. inv H. auto. Qed.
+
+Lemma set_mag_mode b s s' r :
+  set_magnetic_field b s = (s', r) ->
+  mode s' = mode s \/
+  (q_sched s = [] /\ q_inxy s = false /\ sigs (q_sched s') = [] /\ q_inxy s' = true /\ q_inising s' = q_inising s).
+Proof.
+  intros H. unfold set_magnetic_field in H.
+  apply bind_inv in H. destruct H as [(s1 & s0 & H1 & H)|(x & H1 & _)];
+    [|apply qpure_get in H1; subst; left; reflexivity].
+  apply get_inv in H1. destruct H1 as [-> H1]. inv H1.
+  destruct (q_inxy s) eqn:Ex; cbn [negb] in H.
+  - (* already XY: nothing about the mode changes *)
+    left.
+    assert (K : mkeep (guard (negb (q_empty s)) EValue ;;;
+              (let '(bx, by_, bz) := b in
+               guard (f_eq bx zero && f_eq by_ zero && f_eq bz zero) EValue ;;;
+               modify (fun s => set_mag s (Some b)) ;;; log_call (OSetMag bx by_ bz)))).
+    { destruct b as [[bx by_] bz]. unfold log_call. mk. }
+    eapply K; eauto.
+  - apply bind_inv in H. destruct H as [(s2 & u2 & H2 & H)|(x & H2 & _)].
+    + apply bind_inv in H2. destruct H2 as [(s3 & u3 & H3 & H2)|(x & H3 & Hr)]; [|discriminate Hr].
+      pose proof H3 as G3. apply qpure_guard in H3. subst s3.
+      unfold modify in H2. inv H2.
+      destruct (q_sched s) eqn:Es; [|unfold guard in G3; discriminate].
+      right.
+      assert (K : mkeep (let '(bx, by_, bz) := b in
+               guard (f_eq bx zero && f_eq by_ zero && f_eq bz zero) EValue ;;;
+               modify (fun s => set_mag s (Some b)) ;;; log_call (OSetMag bx by_ bz))).
+      { destruct b as [[bx by_] bz]. unfold log_call. mk. }
+      apply K in H. apply mode_eq_fields in H. cbn in H. rewrite Es in H. cbn in H.
+      destruct H as (A1 & A2 & A3). repeat split; auto.
+    + apply bind_inv in H2. destruct H2 as [(s3 & u3 & H3 & H2)|(x' & H3 & _)].
+      * unfold modify in H2. discriminate.
+      * apply qpure_guard in H3. subst. left. reflexivity.
+Qed.
+
+Lemma set_mag_ok_nonxy b s s' u :
+  set_magnetic_field b s = (s', Ok u) -> q_inxy s = false -> q_sched s = [].
+Proof.
+  intros H Hx. unfold set_magnetic_field in H.
+  apply bind_inv in H. destruct H as [(s1 & s0 & H1 & H)|(x & H1 & Hr)]; [|discriminate Hr].
+  apply get_inv in H1. destruct H1 as [-> H1]. inv H1. rewrite Hx in H. cbn [negb] in H.
+  apply bind_inv in H. destruct H as [(s2 & u2 & H2 & H)|(x & H2 & Hr)]; [|discriminate Hr].
+  apply bind_inv in H2. destruct H2 as [(s3 & u3 & H3 & H2)|(x & H3 & Hr)]; [|discriminate Hr].
+  destruct (q_sched s); [reflexivity|unfold guard in H3; discriminate].
+Qed.
+
+Lemma mkeep_ensure_basis b : mkeep (ensure_basis v b).
+Proof. unfold ensure_basis. apply mkeep_modify. intros s. destruct (assoc b (q_refs s)); reflexivity. Qed.
+
+Lemma sigs_app l c : sigs (l ++ [c]) = sigs l ++ [sig c].
+Proof. unfold sigs. rewrite map_app. reflexivity. Qed.
+
+(** declare_channel: the mode is unchanged, or exactly one channel was
+    appended under a fresh name, the channel was available, and the XY / Ising
+    flag was set accordingly *)
+Lemma declare_mode name chid init s s' r :
+  declare_channel v name chid init s = (s', r) ->
+  mode s' = mode s \/
+  (q_sched s = [] /\ q_inxy s = false /\ sigs (q_sched s') = [] /\ q_inxy s' = true /\ q_inising s' = q_inising s) \/
+  exists cfg, assoc chid (d_chans (v_dev v)) = Some cfg /\ appended s s' name chid cfg.
+Proof.
+  intros H. unfold declare_channel in H.
+  apply bind_inv in H. destruct H as [(s1 & u1 & H1 & H)|(x & H1 & _)];
+    apply qpure_bim in H1; subst; [|left; reflexivity].
+  apply bind_inv in H. destruct H as [(s1 & u1' & H1 & H)|(x & H1 & _)];
+    apply qpure_guard in H1; subst; [|left; reflexivity].
+  apply bind_inv in H. destruct H as [(s1 & s0 & H1 & H)|(x & H1 & _)];
+    [|apply qpure_get in H1; subst; left; reflexivity].
+  apply get_inv in H1. destruct H1 as [-> H1]. inv H1.
+  apply bind_inv in H. destruct H as [(s1 & u2 & H1 & H)|(x & H1 & _)];
+    [|apply qpure_guard in H1; subst; left; reflexivity].
+  destruct (find_chan name (q_sched s)) eqn:Hn; [unfold guard in H1; discriminate|].
+  apply qpure_guard in H1. subst s1.
+  destruct (assoc chid (d_chans (v_dev v))) as [cfg|] eqn:Ha; [|apply qpure_fail in H; subst; left; reflexivity].
+  apply bind_inv in H. destruct H as [(s1 & u3 & H1 & H)|(x & H1 & _)];
+    [|apply qpure_guard in H1; subst; left; reflexivity].
+  destruct (available v s chid cfg) eqn:Hav; cbn [negb] in H1; [|unfold guard in H1; discriminate].
+  apply qpure_guard in H1. subst s1.
+  (* the flag step *)
+  apply bind_inv in H. destruct H as [(s2 & u4 & H2 & H)|(x & H2 & _)].
+  2:{ (* only the XY branch can fail: inside set_magnetic_field *)
+      destruct (c_basis cfg =? 2) eqn:Eb; [|unfold modify in H2; discriminate].
+      apply bind_inv in H2. destruct H2 as [(s3 & u5 & H3 & H2)|(x' & H3 & _)];
+        [unfold modify in H2; discriminate|].
+      destruct (negb (q_inxy s)) eqn:Ex; [|apply qpure_ret in H3; subst; left; reflexivity].
+      apply set_mag_mode in H3. destruct H3 as [H3|H3]; [left; auto|right; left; auto]. }
+  assert (Hflag : sigs (q_sched s2) = sigs (q_sched s) /\
+                  if c_basis cfg =? 2
+                  then q_inxy s2 = true /\ q_inising s2 = q_inising s /\ (q_inxy s = true \/ q_sched s = [])
+                  else q_inxy s2 = q_inxy s /\ q_inising s2 = true).
+  { destruct (c_basis cfg =? 2) eqn:Eb.
+    - apply bind_inv in H2. destruct H2 as [(s3 & u5 & H3 & H2)|(x' & H3 & Hr)]; [|discriminate Hr].
+      unfold modify in H2. inv H2. cbn [q_sched q_inxy q_inising set_inxy].
+      destruct (q_inxy s) eqn:Ex; cbn [negb] in H3.
+      + apply qpure_ret in H3. subst s3.
+        split; [reflexivity|]. split; [reflexivity|]. split; [reflexivity|]. left; reflexivity.
+      + pose proof (set_mag_ok_nonxy _ _ _ _ H3 Ex) as Hempty.
+        apply set_mag_mode in H3. destruct H3 as [H3|(A1 & A2 & A3 & A4 & A5)].
+        * apply mode_eq_fields in H3. destruct H3 as (B1 & B2 & B3).
+          split; [exact B1|]. split; [reflexivity|]. split; [exact B3|]. right; exact Hempty.
+        * split; [rewrite A3, A1; reflexivity|]. split; [reflexivity|]. split; [exact A5|]. right; exact A1.
+    - unfold modify in H2. inv H2. cbn [q_sched q_inxy q_inising set_inising].
+      split; [reflexivity|]. split; reflexivity. }
+  destruct Hflag as [Hs2 Hfl].
+  apply bind_inv in H. destruct H as [(s3 & u5 & H3 & H)|(x & H3 & Hr)]; [|unfold modify in H3; discriminate].
+  unfold modify in H3. inv H3.
+  set (s3 := set_sched s2 (q_sched s2 ++ [new_chan name chid cfg None])) in *.
+  assert (K : mkeep (ensure_basis v (c_basis cfg) ;;;
+                     (if negb (c_local cfg)
+                      then onsched (append_slot name {| s_kind := KTarget; s_ti := -1; s_tf := 0;
+                                                        s_tg := all_qids_sorted v |})
+                      else match init with
+                           | Some qs => target_ v (Ok qs) (Z.of_nat (length (to_set qs))) name
+                           | None => ret tt
+                           end) ;;;
+                     log_call (ODeclare name chid init))).
+  { unfold log_call. apply mkeep_bind; [apply mkeep_ensure_basis|intros _].
+    apply mkeep_bind; [|intros _; mk].
+    destruct (negb (c_local cfg)); [apply mkeep_onsched, sig_keep_append|].
+    destruct init; [apply mkeep_target|mk]. }
+  apply K in H. apply mode_eq_fields in H. destruct H as (C1 & C2 & C3).
+  right. right. exists cfg. split; auto. unfold appended.
+  rewrite C1, C2, C3. unfold s3. cbn [q_sched q_inxy q_inising set_sched].
+  rewrite sigs_app, Hs2. split; [reflexivity|]. split; [auto|]. split; [auto|].
+  destruct (c_basis cfg =? 2); exact Hfl.
+Qed.
+
+(** config_detuning_map: unchanged, or only the Ising flag set, or exactly one
+    DMM channel appended under a fresh name *)
+Lemma detmap_mode mapid dmm s s' r :
+  config_detuning_map v mapid dmm s = (s', r) ->
+  mode s' = mode s \/
+  (sigs (q_sched s') = sigs (q_sched s) /\ q_inxy s' = q_inxy s /\ q_inising s' = true /\ q_inxy s = false) \/
+  exists cfg name,
+    assoc dmm (d_dmms (v_dev v)) = Some cfg /\
+    sigs (q_sched s') = sigs (q_sched s) ++ [(name, dmm, cfg)] /\
+    find_chan name (q_sched s) = None /\ available v s dmm cfg = true /\
+    q_inxy s = false /\ q_inxy s' = false /\ q_inising s' = true.
+Proof.
+  intros H. unfold config_detuning_map in H.
+  destruct (assoc dmm (d_dmms (v_dev v))) as [cfg|] eqn:Ha; [|apply qpure_fail in H; subst; left; reflexivity].
+  apply bind_inv in H. destruct H as [(s1 & s0 & H1 & H)|(x & H1 & _)];
+    [|apply qpure_get in H1; subst; left; reflexivity].
+  apply get_inv in H1. destruct H1 as [-> H1]. inv H1.
+  apply bind_inv in H. destruct H as [(s1 & u1 & H1 & H)|(x & H1 & _)];
+    [|apply qpure_guard in H1; subst; left; reflexivity].
+  destruct (q_inxy s) eqn:Ex; [unfold guard in H1; discriminate|].
+  apply qpure_guard in H1. subst s1.
+  apply bind_inv in H. destruct H as [(s1 & u2 & H1 & H)|(x & H1 & _)];
+    [|apply qpure_guard in H1; subst; left; reflexivity].
+  destruct (available v s dmm cfg) eqn:Hav; cbn [negb] in H1; [|unfold guard in H1; discriminate].
+  apply qpure_guard in H1. subst s1.
+  apply bind_inv in H. destruct H as [(s1 & u3 & H1 & H)|(x & H1 & _)]; [|unfold modify in H1; discriminate].
+  unfold modify in H1. inv H1.
+  apply bind_inv in H. destruct H as [(s1 & s0 & H1 & H)|(x & H1 & _)];
+    [|apply qpure_get in H1; subst; right; left; cbn; auto].
+  apply get_inv in H1. destruct H1 as [-> H1]. inv H1.
+  cbn [q_sched set_inising] in H.
+  set (name := dmm + dmm_count (set_inising s true) dmm) in *.
+  apply bind_inv in H. destruct H as [(s1 & u4 & H1 & H)|(x & H1 & _)];
+    [|apply qpure_guard in H1; subst; right; left; cbn; auto].
+  destruct (find_chan name (q_sched s)) eqn:Hn; [unfold guard in H1; discriminate|].
+  apply qpure_guard in H1. subst s1.
+  apply bind_inv in H. destruct H as [(s1 & u5 & H1 & H)|(x & H1 & _)]; [|unfold modify in H1; discriminate].
+  unfold modify in H1. inv H1.
+  assert (K : mkeep (ensure_basis v 0 ;;;
+                     onsched (append_slot name {| s_kind := KTarget; s_ti := -1; s_tf := 0;
+                                                  s_tg := all_qids_sorted v |}))).
+  { apply mkeep_bind; [apply mkeep_ensure_basis|intros _]. apply mkeep_onsched, sig_keep_append. }
+  apply K in H. apply mode_eq_fields in H. destruct H as (C1 & C2 & C3).
+  right. right. exists cfg, name. split; auto.
+  rewrite C1, C2, C3. cbn [q_sched q_inxy q_inising set_sched set_inising].
+  rewrite sigs_app. repeat split; auto.
+Qed.
+
+Lemma names_sigs s : names (sigs s) = map ch_name s.
+Proof. unfold names, sigs. rewrite map_map. reflexivity. Qed.
+
+(** appending a channel that was available keeps the invariant *)
+Lemma minv_append sg xy ising name id cfg xy' ising' (s : seq) :
+  dev_ok -> minv (sg, xy, ising) ->
+  sg = sigs (q_sched s) -> xy = q_inxy s -> ising = q_inising s ->
+  find_chan name (q_sched s) = None -> available v s id cfg = true ->
+  (assoc id (d_chans (v_dev v)) = Some cfg \/ (assoc id (d_dmms (v_dev v)) = Some cfg /\ xy = false)) ->
+  (if c_basis cfg =? 2
+   then xy' = true /\ ising' = ising /\ (xy = true \/ q_sched s = [])
+   else xy' = xy /\ ising' = true) ->
+  minv (sg ++ [(name, id, cfg)], xy', ising').
+Proof.
+  intros [Hd1 Hd2] (I1 & I2 & I3 & I4 & I5) -> -> -> Hn Hav Hsrc Hfl.
+  unfold minv. unfold names, ids in *. rewrite !map_app. cbn [map fst snd].
+  split; [apply NoDup_snoc; auto; fold (names (sigs (q_sched s))); apply find_chan_none_names; auto|].
+  split.
+  { intros Hr. apply NoDup_snoc; auto.
+    unfold available in Hav.
+    destruct (negb (q_inxy s) && negb (q_inising s)) eqn:Eflags.
+    - apply andb_prop in Eflags. destruct Eflags as [E1 E2].
+      rewrite I5; [cbn; tauto| |]; [destruct (q_inxy s)|destruct (q_inising s)]; auto; discriminate.
+    - apply andb_prop in Hav. destruct Hav as [Hocc _]. rewrite Hr in Hocc.
+      rewrite orb_false_r in Hocc. fold (ids (sigs (q_sched s))).
+      apply occupied_false_ids. destruct (occupied s id); [discriminate|reflexivity]. }
+  assert (Hcfgdmm : assoc id (d_chans (v_dev v)) = Some cfg -> c_dmm cfg = false).
+  { intros Ha. rewrite Forall_forall in Hd2. apply assoc_in in Ha. apply (Hd2 _ Ha). }
+  assert (Hdmmbasis : assoc id (d_dmms (v_dev v)) = Some cfg -> c_basis cfg <> 2).
+  { intros Ha. rewrite Forall_forall in Hd1. apply assoc_in in Ha. apply (Hd1 _ Ha). }
+  destruct (c_basis cfg =? 2) eqn:Eb.
+  - apply Z.eqb_eq in Eb. destruct Hfl as (-> & -> & Hxy).
+    split; [intros _; apply Forall_app; split; [|constructor; [exact Eb|constructor]]|].
+    { destruct Hxy as [Hx|He]; [auto|rewrite He; constructor]. }
+    split; [discriminate|discriminate].
+  - apply Z.eqb_neq in Eb. destruct Hfl as (-> & ->).
+    split.
+    { intros Hx. exfalso.
+      (* in XY mode only Microwave channels (or DMMs) are available *)
+      unfold available in Hav. rewrite Hx in Hav. cbn [negb andb] in Hav.
+      apply andb_prop in Hav. destruct Hav as [_ Hb]. apply orb_prop in Hb.
+      destruct Hb as [Hb|Hb]; [apply Z.eqb_eq in Hb; auto|].
+      destruct Hsrc as [Ha|[Ha Hxf]]; [rewrite (Hcfgdmm Ha) in Hb; discriminate|congruence]. }
+    split; [|discriminate].
+    intros Hx. apply Forall_app. split; [auto|constructor; [exact Eb|constructor]].
+Qed.
+
+(** the invariant is kept by every call, successful or not *)
+Theorem mode_inv_step o s :
+  dev_ok -> minv (mode s) -> minv (mode (fst (step v s o))).
+Proof.
+  intros Hd Hi. destruct (declares o) eqn:Ed.
+  2:{ rewrite only_declarations_change_mode; auto. }
+  unfold step. destruct (step_m v o s) as [s' r] eqn:E. cbn [fst].
+  destruct o; try discriminate Ed; cbn [step_m] in E.
+  - (* declare *)
+    apply bind_inv in E. destruct E as [(s1 & u & E1 & E)|(x & E1 & _)].
+    + apply qpure_ret in E. subst s1. apply declare_mode in E1.
+      destruct E1 as [E1|[(A1 & A2 & A3 & A4 & A5)|(cfg & Ha & A1 & A2 & A3 & A4)]].
+      * rewrite E1. exact Hi.
+      * unfold mode in *. rewrite A3, A4, A5. unfold minv in *. rewrite A1 in Hi. cbn in *.
+        repeat split; try constructor; intros; try discriminate.
+      * unfold mode. rewrite A1.
+        eapply minv_append; eauto;
+          try (destruct (c_basis cfg =? 2); tauto).
+    + apply declare_mode in E1.
+      destruct E1 as [E1|[(A1 & A2 & A3 & A4 & A5)|(cfg & Ha & A1 & A2 & A3 & A4)]].
+      * rewrite E1. exact Hi.
+      * unfold mode in *. rewrite A3, A4, A5. unfold minv in *. rewrite A1 in Hi. cbn in *.
+        repeat split; try constructor; intros; try discriminate.
+      * unfold mode. rewrite A1.
+        eapply minv_append; eauto;
+          try (destruct (c_basis cfg =? 2); tauto).
+  - (* config_detuning_map *)
+    apply bind_inv in E. destruct E as [(s1 & u & E1 & E)|(x & E1 & _)];
+      [|apply qpure_bim in E1; subst; exact Hi].
+    apply qpure_bim in E1. subst s1.
+    assert (G : exists s2 r2, config_detuning_map v mapid dmm s = (s2, r2) /\ mode s' = mode s2).
+    { apply bind_inv in E. destruct E as [(s2 & u2 & E2 & E)|(x & E2 & _)].
+      - exists s2, (Ok u2). split; auto.
+        assert (K : mkeep (log_call (OConfigDetMap mapid dmm) ;;; (ret unit_sv : QM sv))).
+        { unfold log_call. mk. }
+        eapply K; eauto.
+      - eauto. }
+    destruct G as (s2 & r2 & G1 & G2). rewrite G2.
+    apply detmap_mode in G1.
+    destruct G1 as [G1|[(A1 & A2 & A3 & A4)|(cfg & name & Ha & A1 & A2 & A3 & A4 & A5 & A6)]].
+    + rewrite G1. exact Hi.
+    + unfold mode in *. rewrite A1, A2, A3. unfold minv in *. rewrite A4 in *.
+      destruct Hi as (I1 & I2 & I3 & I4 & I5). repeat split; auto. discriminate.
+    + unfold mode. rewrite A1.
+      eapply (minv_append _ _ _ name dmm cfg (q_inxy s2) (q_inising s2) s); eauto.
+      unfold dev_ok in Hd. destruct Hd as [Hd1 _]. rewrite Forall_forall in Hd1.
+      pose proof (Hd1 _ (assoc_in _ _ _ Ha)) as Hb. cbn in Hb.
+      destruct (c_basis cfg =? 2) eqn:Eb; [apply Z.eqb_eq in Eb; contradiction|].
+      split; congruence.
+  - (* set_magnetic_field *)
+    apply bind_inv in E. destruct E as [(s1 & u & E1 & E)|(x & E1 & _)].
+    + apply qpure_ret in E. subst s1. apply set_mag_mode in E1.
+      destruct E1 as [E1|(A1 & A2 & A3 & A4 & A5)]; [rewrite E1; exact Hi|].
+      unfold mode in *. rewrite A3, A4, A5. unfold minv in *. rewrite A1 in Hi. cbn in *.
+      repeat split; try constructor; intros; try discriminate.
+    + apply set_mag_mode in E1.
+      destruct E1 as [E1|(A1 & A2 & A3 & A4 & A5)]; [rewrite E1; exact Hi|].
+      unfold mode in *. rewrite A3, A4, A5. unfold minv in *. rewrite A1 in Hi. cbn in *.
+      repeat split; try constructor; intros; try discriminate.
+Qed.
+
+Lemma minv_seq0 : minv (mode seq0).
+Proof. unfold mode, minv; cbn. repeat split; try constructor; auto. Qed.
+
+(** every reachable state *)
+Theorem mode_inv_run ops : dev_ok -> minv (mode (run v ops)).
+Proof.
+  intros Hd. unfold run.
+  assert (G : forall s, minv (mode s) -> minv (mode (fold_left (fun s o => fst (step v s o)) ops s))).
+  { induction ops as [|o ops IH]; intros s Hs; cbn [fold_left]; auto.
+    apply IH. apply mode_inv_step; auto. }
+  apply G. apply minv_seq0.
+Qed.
+
+End Inv.
